@@ -2,7 +2,7 @@
 import itertools
 
 ID = "C09"
-LEAN_MODULES = ["GoaktVerif.Props.C09"]
+LEAN_MODULES = ["GoaktVerif.Props.C09", "GoaktVerif.Props.C09Attach"]
 THEOREMS = [
     "GoaktVerif.Model.C09.wf_addRoot",
     "GoaktVerif.Model.C09.wf_addNode",
@@ -33,8 +33,20 @@ THEOREMS = [
     "GoaktVerif.C09.stop_holds",
     "GoaktVerif.C09.hyp_of_hypB",
     "GoaktVerif.C09.C09_holds",
+    "GoaktVerif.C09.addNode_unknown_parent",
+    "GoaktVerif.C09.addNode_ok_registers",
+    "GoaktVerif.C09.attach_order_registers",
 ]
-INPKG = ["actor/zz_verif_c09.go", "actor/zz_verif_c09sys.go"]
+INPKG = ["actor/zz_verif_c09.go", "actor/zz_verif_c09sys.go", "actor/zz_verif_c09attach.go"]
+# build-time gates for the `attach` cases (zz_verif_c09attach.go): the goroutine that spawns an actor is held between
+# "started" (newPID/configPID returned) and "attached to the tree" (completeSpawn) while the actor's PostStart
+# handler spawns a child
+REWRITE = [
+    {"file": "actor/spawn.go", "before": "\t\treturn x.completeSpawn(ctx, x.getUserGuardian(), pid)\n",
+     "insert": "\t\tverifAttachGate(pid)\n"},
+    {"file": "actor/pid.go", "before": "\t\tif _, err := pid.ActorSystem().completeSpawn(ctx, pid, cid); err != nil {\n",
+     "insert": "\t\tverifAttachGate(cid)\n"},
+]
 # engine E3 for the `resolve` cases: yield points in the tree's lookup / delete path
 INSTRUMENT = ["actor/pid_tree.go"]
 INSTRUMENT_ARGS = {"actor/pid_tree.go": ["-funcs", "tree.nodeByName,tree.node,tree.deleteNode,pidNode.value"]}
@@ -81,17 +93,24 @@ MANIFEST = {
                    "model: addRootNode after the root slot was used, attach that would close a cycle (guarded), nil PIDs; "
                    "errgroup concurrency of sibling stops is modelled sequentially (sibling/cousin watch pairs are not "
                    "generated). Trusted: PID.Equals case folding not modelled; cleared node objects are unobservable "
-                   "(argued in Model/C09.lean, sampled by the differential)."),
+                   "(argued in Model/C09.lean, sampled by the differential). Attach order (C09-F4, fixed): "
+                   "addNode_unknown_parent / attach_order_registers prove for every tree that a child inserted before its parent "
+                   "is refused and stays unregistered, and that it is registered under the parent when the parent was inserted "
+                   "first; that goakt performs the two insertions in that order when a PostStart handler spawns a child is a fact "
+                   "about goroutine scheduling between newPID and completeSpawn, checked (not proved) by the `attach` cases, which "
+                   "hold the spawning goroutine in front of completeSpawn through a build-time gate."),
     "technique": "Lean 4 proof (inductive invariant over all op sequences of the actor tree) + differential run of the real tree against the model after every op + scenario differential on a real actor system",
 }
 TRUSTED = [
     "cleared pidNode objects (pid == nil) have no observable behaviour, so the model keeps live node objects only (argument in Model/C09.lean; sampled by the differential through the '!' flags of the dump)",
     "PID.Equals compares IDs case-insensitively; the harness only uses lower-case ids",
     "sys scenarios: quiescence of an actor = empty mailbox and idle dispatch state (in-package read); Restart racing death watch is detected and such runs are counted inconclusive",
+    "attach cases: the gate call check.py inserts in front of completeSpawn in a build-time copy of actor/spawn.go and actor/pid.go (exact-text anchors, each required to occur exactly once) does not change what the code does besides holding the spawning goroutine",
 ]
 RULE = ("tree: random op scripts (addRoot/addNode/attach/addOrAttach/addWatcher/removeWatcher/removeDescendant/"
         "deleteNode/reset) over up to 12 ids with colliding names, NoSender operands, re-attach after delete, "
         "plus every rooted tree with <= 5 nodes x every delete; the dump after EVERY op is compared with the model; "
+        "attach: a PostStart handler spawns a child while the actor's own spawn (Spawn / SpawnChild) is held in front of its attachment, hold 20 and 150 ms; "
         "non-trivial = at least one node registered at some point; distinct by (case, output)")
 TIMEOUT = 900
 
@@ -429,9 +448,52 @@ FIXED = [
 ]
 
 
+# a PostStart handler spawns a child while the actor's own spawn is held in front of its attachment to the tree
+# (held until the handler has spawned, at most <ms>); C09-F4, fixed: a regression is a VIOLATION
+ATTACH_CASES = ["attach top 150", "attach child 150", "attach top 20", "attach child 20"]
+ATTACH_EXPECT = {"top": "reg=1;par=1;chi=1|krun=0;kps=1;order=K,P", "child": "reg=1;par=1;chi=1|krun=0;kps=1;order=K,P,G"}
+ATTACH_WHY = ("an actor spawned from its parent's PostStart handler is not attached to the actor tree (the handler ran before the "
+              "parent itself was attached; the insertion under the unknown parent failed and was ignored): it is live but ")
+
+
+def _attach_body(impl):
+    """drop the diagnostic `;early=` field"""
+    return impl.split(";early=")[0]
+
+
+def _oracle_attach(case, impl):
+    if impl.startswith(("CRASH", "panic")) or impl == "bad-case":
+        return "harness crashed or panicked: " + impl[:200]
+    want = ATTACH_EXPECT.get(case.split()[1])
+    got = _attach_body(impl)
+    if got == want:
+        return None
+    if got.startswith("nokid"):
+        return "bad the PostStart handler could not spawn its child: " + impl
+    d = {}
+    for part in got.replace("|", ";").split(";"):
+        if "=" in part:
+            k, v = part.split("=", 1)
+            d[k] = v
+    probs = []
+    if d.get("reg") != "1":
+        probs.append("not resolvable by name")
+    if d.get("par") != "1":
+        probs.append("not registered under its parent")
+    if d.get("chi") != "1":
+        probs.append("missing from parent.Children()")
+    if d.get("krun") != "0":
+        probs.append("still running after the stop of its ancestor returned")
+    if d.get("kps") != "1":
+        probs.append("its PostStop did not run")
+    if not probs:
+        probs.append(f"PostStop order {d.get('order')!r} is not children first")
+    return "bad " + ATTACH_WHY + ", ".join(probs) + f" ({impl})"
+
+
 def gen_cases(rng, tier):
     n, nsys = (400, 120) if tier == "quick" else (12000, 3000)
-    cases = list(FIXED) + _all_small_trees()
+    cases = list(FIXED) + _all_small_trees() + ATTACH_CASES * (1 if tier == "quick" else 5)
     for i in range(n):
         nm = rng.choice([1, 2, 3, 4, 5])
         nids = rng.choice([4, 6, 8, 12])
@@ -443,7 +505,7 @@ def gen_cases(rng, tier):
 
 
 def search_cases(rng, tier):
-    cases = list(FIXED) + _all_small_trees()
+    cases = list(FIXED) + _all_small_trees() + ATTACH_CASES
     for i in range(3000):
         cases.append(_gen_tree_script(rng, rng.randint(3, 40), rng.choice([1, 2, 3, 5]), rng.choice([4, 6, 8, 12])))
     cases += SYS_FIXED + _resolve_cases()
@@ -588,6 +650,8 @@ def compare(case, impl, model):
         return None
     if case.startswith("guard"):
         return None if impl.startswith(model) else f"impl={impl!r} model={model!r}"
+    if case.startswith("attach"):
+        return None if _attach_body(impl) == model else f"impl={impl!r} model={model!r}"
     if case.startswith("resolve"):
         return None if model == "*" and impl.startswith("T ") else f"impl={impl[:120]!r} model={model!r}"
     if case.startswith("sys"):
@@ -659,6 +723,8 @@ RESOLVE_WHY = ("name resolution panics: the node was cleared by death watch betw
 def oracle(case, impl, judge):
     if case.startswith("guard"):
         return ("bad " + GUARD_WHY) if "panic" in impl else None
+    if case.startswith("attach"):
+        return _oracle_attach(case, impl)
     if case.startswith("resolve"):
         if "!stuck" in impl or "cap" in impl.split("|")[0].split():
             return "bad controlled schedule did not complete: " + impl[:200]
@@ -695,6 +761,8 @@ def classify(case, impl, why):
 def is_trivial(case, impl):
     if case.startswith(("guard", "resolve")):
         return False
+    if case.startswith("attach"):
+        return impl.startswith(("CRASH", "panic")) or impl == "bad-case"
     if case.startswith("sys"):
         return impl in ("", "bad-case") or impl.startswith(("CRASH", "panic")) or _inconclusive(impl)
     return impl in ("", "bad-case") or impl.startswith(("CRASH", "panic")) or "|" not in impl
